@@ -277,6 +277,24 @@ func c16Run(c *fw.Ctx) {
 	if c.Shard == 1%c.NShards {
 		c16Setters(c, "")
 	}
+	if c.Shard == 2%c.NShards {
+		// containers with many items (14, 20, 40) whose tags are not in ascending order, one of them a long value
+		for _, n := range []int{14, 20, 40} {
+			for _, long := range []int{0, 300, 700} {
+				var tags, lens []int
+				for i := 0; i < n; i++ {
+					tags = append(tags, []int{9, 3, 200, 3, 1, 9, 77}[i%7])
+					lens = append(lens, 1+i%5)
+				}
+				if long > 0 {
+					tags[n/2], lens[n/2] = 5, long
+					tags = append(tags, 2, 5)
+					lens = append(lens, 4, 3)
+				}
+				c16Sets(c, c16Case{Kind: "sets", Tags: tags, Lens: lens})
+			}
+		}
+	}
 	// (a) every tag × every length
 	var tags []int
 	for t := 0; t < 256; t++ {
@@ -408,6 +426,7 @@ func init() {
 		Level: "exploration",
 		Rule: "exhaustive enumeration (serialising is repeated after the first buffer was consumed partly and fully: same bytes): (a) all tags 0..255 × all value lengths 0..1024 (+5 fixed longer lengths) set on hc's container, wire bytes compared with an independent TLV8 encoder and parsed back; " +
 			"(a2) SetByte for all 256 byte values on tags 0, 1, 6, 255 and SetString for strings with multi-byte characters, invalid UTF-8, NUL, 255 / 256 / 600 bytes: exact wire bytes, getters before and after a parse; " +
+			"(a3) containers of 14, 20, 40 items with tags in no particular order and a long value in the middle; " +
 			"(b) all Set sequences of length ≤3 (quick) / ≤4 (thorough) over 2 tags × lengths {0,1,254,255,256,510,511}, each also with a lookup of every tag between the sets and with the caller reusing and wiping ONE value buffer after every Set; (c) all byte strings of length ≤2 (quick) / ≤3 (thorough) and every prefix / single-byte edit / deletion / insertion of 3 valid encodings as parser input. " +
 			"distinct_nontrivial = distinct (operation kind, length-class tuple) and parser outcome classes observed Plus, in a subprocess built with a scheduling point before EVERY statement of hc's packages (textual insertion through go build -overlay): every interleaving with at most 1 (thorough 2) preemptions of pairs of operations on disjoint objects — and, where the property is about served requests, of pairs of handlers on two verified connections of one accessory touching different characteristics — each side must observe exactly what it observes when the two run one after the other (module-level mutable state is what makes them differ).",
 		Run:    c16Run,
